@@ -149,7 +149,7 @@ pub fn plan(prop: &str) -> Option<Plan> {
         ),
         "C14" => p(
             "C14",
-            vec![("isolation", 5, false), ("flood", 1, false)],
+            vec![("isolation", 5, false), ("stallmany", 2, false), ("flood", 1, false)],
             vec![],
             vec!["c14.frozen-run-completed"],
             "a run is non-trivial if one hash was frozen and another one had HTLCs in flight",
